@@ -19,6 +19,7 @@ EXPLANATION = (
     "return_index: with the candidates stacked first, keeping indices < len(candidates) keeps all of them). R3 only filtered rows reach the "
     "target: every logger-call argument carries the filter's tags or is a point slot; the only no-record evaluations are the noise test "
     "(guard level < 1) and the final samples (guard level > 0). Rows must carry the box, removal and constraint stages. Decides the filter's structure, not floating-point coincidences within tol."
+    " R4 = C02-R5 (identity of the stored constraint callable)."
 )
 
 
